@@ -106,8 +106,53 @@ Theorem C03_tr_if nm E te st x lbl c t f v : corr nm E te st (X.x_env x) ->
       (add_evs st (map (fun p => (lbl, fst p, snd p)) (probes (tsig E) st 0 c))).
 Proof. exact (tr_if_sound nm E te st x lbl c t f v). Qed.
 
-(* for loops, sequencing and whole blocks: NOT proved — TranslateSound.tr_block_sound_partial is the statement (a
-   definition, not a theorem); harness/c03_tr.py samples it on random inputs for every compared block on every run. *)
+(* ---- whole combinational blocks ----
+   For a plain design (plain_ok: every signal ONE scalar variable of the module - Bits vector or packed struct -, fields at
+   the offsets of the declaration table, temporaries declared, all spellings distinct) and an update block accepted by
+   comb_ok (blocking assignments to signals / fields / part selects / bits / temporaries, nested if / elif / else, every
+   expression sv_ok, the block type-checks; NO for loop), from related states (inv: every signal variable holds the
+   simulator's packed value modulo the signal width, assigned temporaries their value, nothing pending):
+   if the simulator runs the block without raising, then after SvEval has run the EMITTED always_comb body
+   nothing is pending, the loop fuel was never exhausted, EVERY signal and field (s, p) reads the simulator's new value of
+   that field, and every temporary python has assigned holds its value. *)
+Theorem C03_tr_comb_block_sound te nm G ntmp b st st' x :
+  plain_ok te nm G ntmp = true -> comb_ok te nm ntmp G b = true ->
+  inv te nm G ntmp (init_tenv G) st x -> exec_block G b st = Ok st' ->
+  let x' := X.exec_list te (tr_block nm G b) x in
+  X.x_pend x' = [] /\ X.x_ok x' = true /\
+  (forall s p f, lookup_sig G s p = Some f ->
+     Z'.read_bits (X.x_env x') (Z'.resolve te (X.x_env x') (tr_sig nm s p)) = (sigv st' s / 2 ^ flo f) mod 2 ^ fw f) /\
+  (forall i v, tmpv st' i = Some v -> Z'.lookup (X.x_env x') (n_tmp nm i) = Z'.VZ (value_int v)).
+Proof. exact (tr_comb_block_sound te nm G ntmp b st st' x). Qed.
+
+(* ... the relation is an invariant (this is what composes: the final states are related again) ... *)
+Theorem C03_tr_comb_block_invariant te nm G ntmp b st st' x :
+  plain_ok te nm G ntmp = true -> comb_ok te nm ntmp G b = true ->
+  inv te nm G ntmp (init_tenv G) st x -> exec_block G b st = Ok st' ->
+  inv te nm G ntmp (env_after_list (init_tenv G) b) st' (X.exec_list te (tr_block nm G b) x).
+Proof. intros HP. exact (tr_comb_block_sound_gen te nm G ntmp HP b st st' x). Qed.
+
+(* ... and it holds where an always_comb block starts: signal variables hold the packed signal values, python has not
+   assigned any temporary yet *)
+Theorem C03_tr_comb_block_start te nm G ntmp st en : plain_ok te nm G ntmp = true ->
+  (forall i, tmpv st i = None) ->
+  (forall s f0, lookup_sig G s [] = Some f0 -> PositiveMap.find (sid nm s) en = Some (Z'.VZ (sigv st s))) ->
+  (forall i w, (i < ntmp)%nat -> tmp_decl te nm i = Some w ->
+     exists U, PositiveMap.find (n_tmp nm i) en = Some (Z'.VZ U) /\ 0 <= U < 2 ^ w) ->
+  inv te nm G ntmp (init_tenv G) st (X.mkx en [] true).
+Proof. intros _. exact (inv_init te nm G ntmp st en). Qed.
+
+(* one statement of such a block (used by the induction; stated because it is the key lemma): an accepted assignment or
+   if preserves the relation under the typing environment threaded by env_after *)
+Theorem C03_tr_comb_stmt_preserves te nm G ntmp : plain_ok te nm G ntmp = true -> forall s E,
+  cstmt_ok te nm ntmp E s = true -> tmps_ok te nm ntmp E ->
+  forall st x st', inv te nm G ntmp E st x -> exec G s st = Ok st' ->
+  inv te nm G ntmp (env_after E s) st' (X.exec te (tr_stmt nm E s) x).
+Proof. intros HP s E Hok T. exact (proj2 (stmt_prop_all te nm G ntmp HP s E Hok T)). Qed.
+
+(* NOT proved: for loops (TranslateSound.tr_for_sound_partial names the missing lemma) and always_ff blocks with their
+   pending non-blocking writes (tr_ff_block_sound_partial); harness/c03_tr.py samples both on random inputs for every
+   compared block on every run (Translate.blk_diff). *)
 
 (* ---- the comparison used by the tie is an equality up to inlined localparams ---- *)
 Theorem C03_tr_sexpr_eqb_eq x y : sexpr_eqb x y = true -> x = y.
@@ -141,6 +186,10 @@ Print Assumptions C03_tr_assign_part_select.
 Print Assumptions C03_tr_assign_bit.
 Print Assumptions C03_tr_assign_temporary.
 Print Assumptions C03_tr_if.
+Print Assumptions C03_tr_comb_block_sound.
+Print Assumptions C03_tr_comb_block_invariant.
+Print Assumptions C03_tr_comb_block_start.
+Print Assumptions C03_tr_comb_stmt_preserves.
 
 (* ---- non-vacuity: a concrete block, translated by tr_block and evaluated both ways ----
      s.a = InPort(8)  s.o = OutPort(8)  s.b = InPort(4)
@@ -198,4 +247,29 @@ Proof. vm_compute. reflexivity. Qed.
 Example cond_instance a b i v : 0 <= i < 4 -> eval G (st1 a b i) (EIdx (ESig 0 []) (ELoop 0)) = Ok v ->
   Z'.truthy (Z'.eval_self te (en1 a b i) (tr_expr nm E1 None (EIdx (ESig 0 []) (ELoop 0)))) = truthy v.
 Proof. intros Hi. apply (C03_tr_cond_sound nm E1 te (st1 a b i) (en1 a b i) (corr_ok a b i Hi) _ v cond_accepted). Qed.
+
+(* non-vacuity of C03_tr_comb_block_sound: the design of TrExample2 ( t = zext(s.b[0:2],4)+1 ; s.o @= 0 ;
+   if s.a[0]: s.o[4:8] @= t  else: s.o[1] @= s.a[7] ) is plain, its block is accepted, the start states are related, and
+   the theorem gives the value of  o  after the emitted block for ALL inputs a, b *)
+Import TrExample2.
+Example comb_plain : plain_ok te2 nm2 G 1 = true. Proof. exact plain2. Qed.
+Example comb_accepted : comb_ok te2 nm2 1 G blk2 = true. Proof. exact comb2. Qed.
+Example comb_emitted :
+  tr_block nm2 G blk2 =
+  [ S.SBlocking (S.EId t_id) (S.EBin S.BAdd (S.EConcat [S.ERepl 2 (S.ELit 1 0); S.ERange (S.EId b_id) 1 0]) (S.ELit 4 1));
+    S.SBlocking (S.EId o_id) (S.ELit 8 0);
+    S.SIf (S.EIndex (S.EId a_id) (S.ELit 3 0))
+      [ S.SBlocking (S.ERange (S.EId o_id) 7 4) (S.EId t_id) ]
+      [ S.SBlocking (S.EIndex (S.EId o_id) (S.ELit 3 1)) (S.EIndex (S.EId a_id) (S.ELit 3 7)) ] ].
+Proof. vm_compute. reflexivity. Qed.
+Example comb_instance a b st' : exec_block G blk2 (st2 a b) = Ok st' ->
+  Z'.read_bits (X.x_env (X.exec_list te2 (tr_block nm2 G blk2) (X.mkx (en2 a b) [] true)))
+               (Z'.resolve te2 (X.x_env (X.exec_list te2 (tr_block nm2 G blk2) (X.mkx (en2 a b) [] true))) (tr_sig nm2 1 []))
+  = (sigv st' 1 / 2 ^ 0) mod 2 ^ 8.
+Proof.
+  intros Hex. destruct (C03_tr_comb_block_sound te2 nm2 G 1 blk2 _ st' _ plain2 comb2 (inv2 a b) Hex) as (_ & _ & Hs & _).
+  exact (Hs 1%nat [] f8 eq_refl).
+Qed.
+Example comb_runs : exists st', exec_block G blk2 (st2 0xA5 3) = Ok st' /\ sigv st' 1 = 0x40.
+Proof. eexists. split; vm_compute; reflexivity. Qed.
 End Example.
